@@ -621,7 +621,7 @@ def stratum_of(c):
 
 def gen_cases(chk):
     rng = random.Random(chk.seed)
-    reps = 3 if chk.tier == 'quick' else 28
+    reps = 3 if chk.tier == 'quick' else 80
     cases = []
     for grid in GRIDS:
         for i in range(reps):
@@ -632,7 +632,7 @@ def gen_cases(chk):
                 kind = 'uniform'
             cases.append(gen_config(rng, grid, kind))
         if grid[0] >= 3:
-            for _ in range(1 if chk.tier == 'quick' else 4):
+            for _ in range(1 if chk.tier == 'quick' else 10):
                 cases.append(gen_config(rng, grid, 'empty'))
     return cases
 
